@@ -45,6 +45,8 @@ type QCfg struct {
 	// adapter faults (percent per call)
 	FEnq int `json:"fenq,omitempty"`
 	FDeq int `json:"fdeq,omitempty"`
+	// FDeqBurst: the backend refuses this many dequeues in a row (while it holds items), once
+	FDeqBurst int `json:"fdeqburst,omitempty"`
 	Bound  int  `json:"bound,omitempty"`  // in-memory user queue with this capacity whose Enqueue waits while it is full
 	AckCap bool `json:"ackcap,omitempty"` // in-memory user queue that also has the acknowledgement methods (refuses half of the acknowledgements)
 	FAck int `json:"fack,omitempty"`
@@ -112,6 +114,7 @@ type Sub struct {
 	Submitted   bool
 	AddInv      uint64
 	AddRet      uint64
+	AddOK       int // what the Add call itself returned: 0 unknown, 1 true, 2 false
 	AcceptKnown bool
 	Accepted    bool
 	Enq         uint64 // wrapper/adapter: enqueue seq (accepted)
@@ -210,6 +213,7 @@ type World struct {
 	inflight   int
 	maxInflight int
 	errsSeen   []string
+	errsSeenSeq []uint64 // when each was taken off Errs()
 	errReaderOn bool
 	epilogue   bool
 	numCPU     int
